@@ -2305,7 +2305,11 @@ package ion
 //@ ensures[C03,C07] old(bsAvail(b)) > 0 && !specTagVarLen(old(bsByte(b, 0))) && old(bsByte(b, 0))>>4 != 1 && remainingLength != 1+specTagInlineLen(old(bsByte(b, 0))) ==> err != nil
 //@ ensures[C07] old(bsAvail(b)) > 0 && old(bsByte(b, 0))&0x0F != 15 && (old(bsByte(b, 0))>>4 == 14 || old(bsByte(b, 0))>>4 == 0) ==> err != nil
 //@ ensures[C07,C19] old(bsAvail(b)) == 0 ==> err != nil
-// (proved by the thorough tier only: 25 s on an idle machine, by one solver configuration)
+// The same for a one-byte length field (values of 14 to 127 bytes, and every sorted struct up
+// to 127 bytes), which every tier proves:
+//@ ensures[C01,C03] old(bsAvail(b)) > 11 && specTagVarLen(old(bsByte(b, 0))) && old(bsByte(b, 0))>>4 != 0 && old(bsByte(b, 0))>>4 != 14 && specVarUintEndAt(bsS(b).data, old(bsS(b).cur)+1) == 1 &&
+//@    remainingLength == 2+specVarUintValue(bsS(b).data, old(bsS(b).cur)+1, 1) ==> err == nil
+// (the general clause is proved by the thorough tier only: 25 s on an idle machine, by one solver configuration)
 //@ ensures[C01,C03,thorough] old(bsAvail(b)) > 11 && specTagVarLen(old(bsByte(b, 0))) && old(bsByte(b, 0))>>4 != 0 && old(bsByte(b, 0))>>4 != 14 && specVarUintEndAt(bsS(b).data, old(bsS(b).cur)+1) != 0 &&
 //@    remainingLength == 1+specVarUintEndAt(bsS(b).data, old(bsS(b).cur)+1)+specVarUintValue(bsS(b).data, old(bsS(b).cur)+1, specVarUintEndAt(bsS(b).data, old(bsS(b).cur)+1)) ==> err == nil
 //@ safe[C06]
